@@ -35,6 +35,29 @@ def _validate_scale(scale):
         )
 
 
+def _check_bounding_ball(points, center, r2, rtol=1e-6):
+    """Raise LinAlgError unless the ball is the minimal bounding ball of the points.
+
+    The miniball package occasionally returns a wrong ball for degenerate
+    configurations (many points on the boundary), depending on the state of the
+    global random number generator. A ball containing all points is the smallest
+    one exactly when its center is a convex combination of the points on its
+    boundary, which is checked here with a nonnegative least squares problem.
+    """
+    from scipy.optimize import nnls
+
+    d2 = np.sum((points - center) ** 2, axis=1)
+    if np.any(d2 > r2 * (1 + rtol)):
+        raise np.linalg.LinAlgError("miniball result excludes a point")
+    if r2 > 0:
+        support = (points[d2 >= r2 * (1 - rtol)] - center) / np.sqrt(r2)
+        a = np.vstack((support.T, np.ones(len(support))))
+        b = np.zeros(a.shape[0])
+        b[-1] = 1
+        if len(support) == 0 or nnls(a, b)[1] > 1e-3:
+            raise np.linalg.LinAlgError("miniball result is not minimal")
+
+
 def rotate_order2_tensor(rotation, tensor):
     """Transform a tensor with a similarity transformation."""
     return rotation @ tensor @ rotation.T
